@@ -133,17 +133,17 @@ func execC05(seg []Ev) []Ev {
 }
 
 var c05pool = map[string][]string{
-	"generic":    {"<=", "<>", ">=", "<", "a<=b<>c>=d", "abc", "12.5", "-", "'q'", "'open", "# c", " ", "", "a.b-c", "Ж", "😀"},
-	"expression": {"<=", "<>", "<<", ">=", ">>", "!=", "<", ">", "!", "a<=b<>c<<d>=e>>f!=g", "abc", "1.5e3", "'q''r'", "\"w\"", "'open", "/* c */", "/* open", "/", " ", "", "NOT x"},
-	"csv":        {"\r\n", "\n\r", "\r", "\n", "a,b\r\nc\n\rd", "\"q\"\"r\"", "\"open", ",", "", "a"},
-	"generic-custom": {"=:=", "=:", "=", "<!--", "<!-", "<!", "!>>>", "!>>", "a=:=b<!--c", "=:=:<!-!>>", "", "x"},
-	"generic-arrows": {"страна", "a → b", "→", "x→y", "日本　語", "ab", "", "→→ж", "'→'", "ж"},
+	"generic":            {"<=", "<>", ">=", "<", "a<=b<>c>=d", "abc", "12.5", "-", "'q'", "'open", "# c", " ", "", "a.b-c", "Ж", "😀"},
+	"expression":         {"<=", "<>", "<<", ">=", ">>", "!=", "<", ">", "!", "a<=b<>c<<d>=e>>f!=g", "abc", "1.5e3", "'q''r'", "\"w\"", "'open", "/* c */", "/* open", "/", " ", "", "NOT x"},
+	"csv":                {"\r\n", "\n\r", "\r", "\n", "a,b\r\nc\n\rd", "\"q\"\"r\"", "\"open", ",", "", "a"},
+	"generic-custom":     {"=:=", "=:", "=", "<!--", "<!-", "<!", "!>>>", "!>>", "a=:=b<!--c", "=:=:<!-!>>", "", "x"},
+	"generic-arrows":     {"страна", "a → b", "→", "x→y", "日本　語", "ab", "", "→→ж", "'→'", "ж"},
 	"generic-quotes":     {"a «b c«", "«open", "“d“ x", "", "'e'", "««"},
 	"generic-unknownsym": {"a ? b", "?!", "?", "!?", "", "x"},
 	"generic-2quotes":    {"a `b``c`", "`open", "'d'", "", "``", "x"},
 	"expression-custom":  {"a->b", "->", "-", "=>", "=", "--", "-=", "a - 1", "", "-1"},
-	"csv-wide":       {"日本；語", "страна", "a；b", "«q；»；x", "；", "", "a,b", "ж；ж\r\nж"},
-	"mustache":   {"{{", "{{{", "}}", "}}}", "{{a}}", "{{{a}}}", "x{{a}}y{{{b}}}z", "text", "{{ 'q' }}", "{{#a}}b{{/a}}", "{", "}", "", "{{ open"},
+	"csv-wide":           {"日本；語", "страна", "a；b", "«q；»；x", "；", "", "a,b", "ж；ж\r\nж"},
+	"mustache":           {"{{", "{{{", "}}", "}}}", "{{a}}", "{{{a}}}", "x{{a}}y{{{b}}}z", "text", "{{ 'q' }}", "{{#a}}b{{/a}}", "{", "}", "", "{{ open"},
 }
 
 func genC05(g *Gen) {
